@@ -58,6 +58,38 @@ func runSeeds(seeds []Seed, repo string, onlyRules map[string]bool) []SeedResult
 	}
 	defer os.RemoveAll(tmp)
 	results := make([]SeedResult, len(seeds))
+	// obligations that already fail on the unchanged tree (open known findings) are not what a seed is judged by
+	baseFail := map[string]bool{}
+	{
+		ruleSet := map[string]bool{}
+		for _, sd := range seeds {
+			for _, rl := range sd.Rules {
+				if onlyRules == nil || len(onlyRules) == 0 || onlyRules[rl] {
+					ruleSet[rl] = true
+				}
+			}
+		}
+		var rl []string
+		for k := range ruleSet {
+			rl = append(rl, k)
+		}
+		sort.Strings(rl)
+		out := filepath.Join(tmp, "baseline.json")
+		cmd := exec.Command(self, "-rules", strings.Join(rl, ","), "-repo", repo, "-no-evidence", "-json", out, "-verif", tmp)
+		cmd.Env = os.Environ()
+		cmd.CombinedOutput()
+		if b, err := os.ReadFile(out); err == nil {
+			var jo struct {
+				Obls []*Obligation `json:"obligations"`
+			}
+			json.Unmarshal(b, &jo)
+			for _, o := range jo.Obls {
+				if o.VerdictS != "discharged" {
+					baseFail[o.Key] = true
+				}
+			}
+		}
+	}
 	var wg sync.WaitGroup
 	sem := make(chan struct{}, 8)
 	for i, sd := range seeds {
@@ -120,7 +152,7 @@ func runSeeds(seeds []Seed, repo string, onlyRules map[string]bool) []SeedResult
 			var failing []string
 			hit := false
 			for _, o := range jo.Obls {
-				if o.VerdictS != "discharged" {
+				if o.VerdictS != "discharged" && !baseFail[o.Key] {
 					failing = append(failing, o.Key)
 					if strings.Contains(o.Key, sd.Expect) {
 						hit = true
